@@ -125,8 +125,6 @@ impl J1939Unit for VolvoD7E {
         object: &Object,
     ) -> Result<(), J1939UnitError> {
         if let Object::Engine(engine_command) = object {
-            ctx.set_tx_last_message(ObjectMessage::command(object.clone()));
-
             let engine_signal = {
                 if let Some(message) = &ctx.rx_last_message() {
                     if let Object::Engine(engine) = message.object {
@@ -146,6 +144,9 @@ impl J1939Unit for VolvoD7E {
                     crate::core::Engine::shutdown()
                 }
             };
+
+            // Remember the command as interpreted here so every later tick gives it the same meaning
+            ctx.set_tx_last_message(ObjectMessage::command(Object::Engine(engine_command)));
 
             let governor_engine = self
                 .governor
